@@ -18,6 +18,8 @@
 size_t gq;
 size_t gj;
 size_t gk;   /* ghost coefficient index  */
+size_t gr;   /* ghost relative (vector) index */
+size_t bs_veq_w; /* witness position of a difference, assigned by the vector comparison shims */
 size_t gi;   /* ghost element index (splines of a collection, knots) */
 size_t gw;   /* ghost witness index for iff-style validation */
 T gu;        /* ghost local coordinate (offset from the interval midpoint) */
@@ -40,6 +42,15 @@ T gx;        /* ghost abscissa */
 #define grid_sorted_global(g) \
   (__CPROVER_forall { size_t bs_q2; __CPROVER_forall { size_t bs_q3; \
       (bs_q2 < bs_q3 && bs_q3 < GN(g) && bs_q3 < BS_CAP) ==> GV(g).d[bs_q2] < GV(g).d[bs_q3] } })
+/* the same two statements about a plain sequence d[0..n); quantifier-free (written out) in the small instance */
+#if BS_CAP > 16
+#define SEQ_SORTED_ADJACENT(d, n) (__CPROVER_forall { size_t bs_q4; (bs_q4 < BS_CAP && bs_q4 + 1 < (n)) ==> (d)[bs_q4] < (d)[bs_q4 + 1] })
+#define SEQ_SORTED_GLOBAL(d, n) (__CPROVER_forall { size_t bs_q5; __CPROVER_forall { size_t bs_q6; \
+      (bs_q5 < bs_q6 && bs_q6 < (n) && bs_q6 < BS_CAP) ==> (d)[bs_q5] < (d)[bs_q6] } })
+#else
+#define SEQ_SORTED_ADJACENT(d, n) ((!(0 + 1 < (n)) || (d)[0] < (d)[1]) && (!(1 + 1 < (n)) || (d)[1] < (d)[2]) && (!(2 + 1 < (n)) || (d)[2] < (d)[3]) && (!(3 + 1 < (n)) || (d)[3] < (d)[4]) && (!(4 + 1 < (n)) || (d)[4] < (d)[5]) && (!(5 + 1 < (n)) || (d)[5] < (d)[6]) && (!(6 + 1 < (n)) || (d)[6] < (d)[7]))
+#define SEQ_SORTED_GLOBAL(d, n) ((!(1 < (n)) || (d)[0] < (d)[1]) && (!(2 < (n)) || (d)[0] < (d)[2]) && (!(2 < (n)) || (d)[1] < (d)[2]) && (!(3 < (n)) || (d)[0] < (d)[3]) && (!(3 < (n)) || (d)[1] < (d)[3]) && (!(3 < (n)) || (d)[2] < (d)[3]) && (!(4 < (n)) || (d)[0] < (d)[4]) && (!(4 < (n)) || (d)[1] < (d)[4]) && (!(4 < (n)) || (d)[2] < (d)[4]) && (!(4 < (n)) || (d)[3] < (d)[4]) && (!(5 < (n)) || (d)[0] < (d)[5]) && (!(5 < (n)) || (d)[1] < (d)[5]) && (!(5 < (n)) || (d)[2] < (d)[5]) && (!(5 < (n)) || (d)[3] < (d)[5]) && (!(5 < (n)) || (d)[4] < (d)[5]) && (!(6 < (n)) || (d)[0] < (d)[6]) && (!(6 < (n)) || (d)[1] < (d)[6]) && (!(6 < (n)) || (d)[2] < (d)[6]) && (!(6 < (n)) || (d)[3] < (d)[6]) && (!(6 < (n)) || (d)[4] < (d)[6]) && (!(6 < (n)) || (d)[5] < (d)[6]) && (!(7 < (n)) || (d)[0] < (d)[7]) && (!(7 < (n)) || (d)[1] < (d)[7]) && (!(7 < (n)) || (d)[2] < (d)[7]) && (!(7 < (n)) || (d)[3] < (d)[7]) && (!(7 < (n)) || (d)[4] < (d)[7]) && (!(7 < (n)) || (d)[5] < (d)[7]) && (!(7 < (n)) || (d)[6] < (d)[7]))
+#endif
 /* The ghost flag BS_SORTED[id] *means* grid_sorted_global of heap vector id.  Proofs about code use it
  * only through instances: SORTED_INST(g,a,b) is the instance of the global statement at the pair (a,b);
  * harnesses assume the instances a proof needs (each is a consequence of the meaning of the flag), the
@@ -47,6 +58,8 @@ T gx;        /* ghost abscissa */
  * L_sorted_adjacent_implies_global (induction, stand-alone) connects the two forms.               */
 #define SORTED_INST(g, a, b) (!(GID(g) < BS_NG) || !BS_SORTED[GID(g)] || !((a) < (b) && (b) < GN(g) && (b) < BS_CAP) || GRID(g, a) < GRID(g, b))
 #define grid_valid(g) (grid_wf(g) && BS_SORTED[GID(g)])
+/* instance at position q of "logically equal grids hold the same elements" (the meaning of BS_GEQ) */
+#define GEQ_INST(g1, g2, q) (!(GID(g1) < BS_NG && GID(g2) < BS_NG) || !BS_GEQ[GID(g1)][GID(g2)] || !((q) < GN(g1) && (q) < BS_CAP) || GRID(g1, q) == GRID(g2, q))
 
 /* logical equality of grids: the ghost relation BS_GEQ on heap ids (bs_rt_post.h) */
 #define grid_eq(g1, g2)  (BS_GEQ[GID(g1)][GID(g2)])
